@@ -26,6 +26,7 @@ type harnessCfg struct {
 	Preempt       int    `json:"preempt"`
 	Delays        int    `json:"delays"` // delay bound (round-robin scheduler with at most this many delays); 0 = pre-emption-bounded mode
 	RaceMonitor   bool   `json:"race_monitor"`
+	NondetMaps    int    `json:"nondet_maps"` // explore every iteration order of maps with up to this many entries (0 = insertion order)
 	Twin          bool   `json:"twin"` // vacuity twin: must yield a violation
 	Tier          string `json:"tier"` // "", "quick", "thorough": run only in that tier (""=both)
 	Scale         []struct {
